@@ -17,7 +17,11 @@ PY
 )
   set -- $id
   chk=$1; tier=$2; base=$3
-  if git -C /repo apply --check "$d/patch.diff" 2>/dev/null; then b=HEAD; else b=$base; fi
-  out=$(BASE=$b TIER=$tier ./seedtest.sh "$PWD/$d/patch.diff" $chk 2>&1 | grep "^$chk rc=")
-  echo "$name base=$b $out" | cut -c1-260
+  b=HEAD
+  res=$(BASE=$b TIER=$tier ./seedtest.sh "$PWD/$d/patch.diff" $chk 2>&1)
+  if echo "$res" | grep -q "patch does not apply"; then
+    b=$base
+    res=$(BASE=$b TIER=$tier ./seedtest.sh "$PWD/$d/patch.diff" $chk 2>&1)
+  fi
+  echo "$name base=$b $(echo "$res" | grep "^$chk rc=")" | cut -c1-260
 done
